@@ -255,6 +255,15 @@ theorem instantiate_no_minter {m : InstMsg} {s : State} (h : instantiate m = .ok
     (ops : List (Block × Addr × Msg)) : (run s ops).mint = none ∧ (run s ops).supply ≤ s.supply :=
   renounce_permanent (by rw [instantiate_mint h, hm]; rfl) ops
 
+/-- `migrate` writes only the cw2 version and the spender allowance map: minter record, supply and
+hence `Inv13` are untouched, so the clauses above also hold for histories interleaved with migrations. -/
+theorem migrate_inv13 {cap0 : Option Nat} {s s' : State} (h : migrate s = .ok s') :
+    s'.mint = s.mint ∧ s'.supply = s.supply ∧ (Inv13 cap0 s → Inv13 cap0 s') := by
+  unfold migrate at h
+  simp at h
+  obtain ⟨_, _, h⟩ := h
+  split at h <;> (simp at h; subst h; exact ⟨rfl, rfl, fun hi => hi⟩)
+
 /-! ## Non-vacuity: concrete histories exercising every clause -/
 
 /-- 125 tokens initially, minter `minter` with cap 200. -/
